@@ -407,7 +407,8 @@ Definition key_eqb (a b : kind * N * N) : bool :=
 Definition count_key (x : kind * N * N) (l : list (kind * N * N)) : nat :=
   length (filter (key_eqb x) l).
 
-(** Spans that occur more often in the output than in the input (each reported once). *)
+(** Occurrences of the input (kind and span) that are mentioned more often in the output than in the input (each reported
+    once); a node of the output that corresponds to no occurrence of the input is not a second evaluation of anything. *)
 Definition dup_effects (vp : string) (ast_in ast_out : node) : list (N * N) :=
   let i := effect_spans vp ast_in in
   let o := effect_spans vp ast_out in
@@ -416,6 +417,7 @@ Definition dup_effects (vp : string) (ast_in ast_out : node) : list (N * N) :=
      | [] => []
      | x :: r =>
          if existsb (key_eqb x) seen then go r seen
-         else if Nat.ltb (count_key x i) (count_key x o) then (snd (fst x), snd x) :: go r (x :: seen)
+         else if Nat.ltb 0 (count_key x i) && Nat.ltb (count_key x i) (count_key x o)
+              then (snd (fst x), snd x) :: go r (x :: seen)
          else go r (x :: seen)
      end) o [].
